@@ -28,9 +28,9 @@ Definition mark_eqb (a b : mark) : bool :=
 
 Definition chk_marks (its : list item) (impl : list mark) : bool := list_eqb mark_eqb (marks its) impl.
 
-(* impl = get_marks(i) for i = 0 .. length impl - 1 (the harness goes two past the last element) *)
+(* impl = get_marks(i) for every text index i = 0 .. length impl - 1 (the harness goes two past the end) *)
 Definition chk_get_marks (its : list item) (impl : list markset) : bool :=
-  list_eqb markset_eqb (map (get_marks its) (seq 0 (length impl))) impl.
+  list_eqb markset_eqb (map (fun i => get_marks its (N.of_nat i)) (seq 0 (length impl))) impl.
 
 Definition span_eqb (a b : span) : bool := nlist_eqb (fst a) (fst b) && markset_eqb (snd a) (snd b).
 Definition chk_spans (its : list item) (impl : list span) : bool := list_eqb span_eqb (spans its) impl.
